@@ -5,7 +5,7 @@
 From GM Require Import Base Text Token Lexer Scanner ExprSpec ExprEval ForExpand Parser Sim Compile
      Prog Meaning AsmSpec C03Lexer C05Lexer C05Fuel C03Proof C07Model C10Proof C14Proof C16Proof ScanProof
      C08Proof C08Block C08Scan C08Passes C08Flat C14Expand C09Parse C09Asm C09GenCompile C09GenLex
-     C03Parse C03Compile C03Labels C03EquCompile C03EquLabels C03Flat.
+     C03Parse C03Compile C03Labels C03EquCompile C03EquLabels C03Flat C08Count.
 From Coq Require Import Lia.
 Open Scope Z_scope.
 
@@ -276,6 +276,65 @@ Proof.
       * apply Hcount. exact Hsyms.
       * rewrite Nat2Z.id, Eb. exact Hnext.
 Qed.
+(* ---------- the counts, stated with the reference: no model-side evaluation in the hypotheses ---------- *)
+Definition nitems (X : list (lelem * nat)) : nat :=
+  length (filter (fun xk => match fst xk with LInstr _ | LEqu _ _ _ _ => true | _ => false end) X).
+Lemma r2_length org0 its0 X : renders_doc2 spell org0 its0 X -> length its0 = nitems X.
+Proof. unfold nitems. induction 1; cbn [filter fst length]; try rewrite IHrenders_doc2; reflexivity. Qed.
+
+(* each count is written as the rendering of an expression whose reference value, over the EQU definitions among
+   the items in front of the block, is the number of copies *)
+Fixpoint counts_ref (F : list (lelem * nat)) (bs : list blk) : Prop :=
+  match bs with
+  | [] => True
+  | b :: r => (exists cnt, b_count b = etoks spell cnt /\ Forall nn_ntok (nprint cnt) /\
+                 value_at (mconf_of cfg) (equs (firstn (nitems (F ++ b_front b)) its)) [] 0 cnt = MV (Z.of_nat (S (b_n b))))
+              /\ counts_ref (F ++ b_front b ++ expand b) r
+  end.
+
+Variable rkN : N -> nat.
+Hypothesis Hrk : ranked spell (equs its) rkN.
+
+Lemma counts_from_reference : forall bs F, es = F ++ blocks_doc bs last -> counts_ref F bs -> counts_ok F bs.
+Proof.
+  induction bs as [|b r IH]; intros F E Hc; [exact I|].
+  cbn [counts_ref counts_ok blocks_doc] in *. destruct Hc as [[cnt [Ecnt [Hnn Hval]]] Hc']. split.
+  2: { apply IH; [rewrite E, <- !app_assoc; reflexivity|exact Hc']. }
+  intros syms Hsyms.
+  assert (E1 : es = (F ++ b_front b) ++ (expand b ++ blocks_doc r last)) by (rewrite E, <- !app_assoc; reflexivity).
+  pose proof es_facts as Hf. rewrite E1 in Hf. apply Forall_app in Hf. destruct Hf as [HF _].
+  pose proof Hrd as Hrd'. rewrite E1 in Hrd'. destruct (r2_app_inv spell _ _ org its Hrd') as [org1 [its1 [its2 [Eits [R1 _]]]]].
+  assert (Efirst : firstn (nitems (F ++ b_front b)) its = its1).
+  { rewrite <- (r2_length _ _ _ R1), Eits. rewrite firstn_app, Nat.sub_diag, firstn_all. cbn [firstn]. apply app_nil_r. }
+  rewrite Efirst in Hval.
+  (* the symbols the scanner has read are these definitions *)
+  assert (Hnd1 : NoDup (map spell (map fst (equs its1)))).
+  { pose proof ev_nodup as H. rewrite Eits, equs_app, !map_app in H. apply nodup_app_l in H. exact H. }
+  assert (Hsh1 : Forall (fun xk => labs_shape (fst xk)) (F ++ b_front b)) by (eapply Forall_impl; [|exact HF]; intros a [_ [_ [_ [A _]]]]; exact A).
+  assert (Esy : syms = equ_entries spell (equs its1)).
+  { unfold front_symbols, doc_plines in Hsyms. rewrite scan_spec_app, scan_spec_empty in Hsyms.
+    rewrite (r2_scan_table spell org1 its1 _ R1 Hsh1 [] Hnd1) in Hsyms. cbn [app] in Hsyms. inversion Hsyms. reflexivity. }
+  subst syms. rewrite Ecnt, (etoks_noncomment spell cnt).
+  (* the prefix's own tables *)
+  assert (Hsp1 : spell_ok spell (map fst (equs its1))).
+  { destruct Hsp as [P Hlab Hinj Hnd Hw].
+    assert (Hin : forall id, In id (map fst (equs its1)) -> In id (flat_map il_labels (instrs its) ++ map fst (equs its))).
+    { intros id Hid. apply in_or_app. right. rewrite Eits, equs_app, map_app. apply in_or_app. left. exact Hid. }
+    constructor; [exact P| | | |exact Hw].
+    - intros id Hid. apply Hlab. apply Hin. exact Hid.
+    - intros a b0 Ha Hb. apply Hinj; apply Hin; assumption.
+    - assert (N1 : NoDup (map fst (equs its))).
+      { clear - Hnd. induction (flat_map il_labels (instrs its)) as [|a l IHl]; [exact Hnd|]. cbn [app] in Hnd. inversion Hnd; subst. apply IHl. assumption. }
+      rewrite Eits, equs_app, map_app in N1. apply nodup_app_l in N1. exact N1. }
+  assert (Henv : env_nn (equs its1)).
+  { clear - R1. intros id d H. apply env_find_entry in H.
+    induction R1 as [|org0 l its0 t k es0 _ _ IHr|org0 c k its0 es0 _ _ IHr|e kw cmt k its0 es0 _ _ _ IHr|org0 n0 e0 labs kw cmt k its0 es0 _ _ Hnn0 _ IHr];
+      cbn [equs] in H; try (apply IHr; exact H); [destruct H|].
+    destruct H as [H|H]; [inversion H; subst; exact Hnn0|apply IHr; exact H]. }
+  assert (Hrk1 : ranked spell (equs its1) rkN).
+  { intros n e Hin x Hx n' e' Hin' Hs. apply (Hrk n e) with (x := x) (e' := e'); try assumption; rewrite Eits, equs_app; apply in_or_app; left; assumption. }
+  apply (block_count spell cfg (equs its1) Hsp1 rkN cnt _ Henv Hrk1 Hnn Hval).
+Qed.
 End Blocks.
 
 (* ---------- the theorem ---------- *)
@@ -296,4 +355,23 @@ Proof.
   apply (for_program_tokens spell cfg org its es lead nm au code start inp toks (length bs) rkN); try assumption.
   rewrite Htoks.
   exact (blocks_unroll spell Hne cfg lead org its es last Hsp Hrd Hsh Hk1 bs [] eq_refl (Forall_nil _) Hw Hc).
+Qed.
+
+(* the same with the counts given by the reference (Meaning.value_at over the EQU definitions in front of each block) *)
+Theorem blocks_program_ref spell (Hne : forall id, spell id <> []) cfg org (its : list Prog.item) bs last lead nm au code start inp toks rkN :
+  let es := blocks_doc bs last in
+  validate cfg = true ->
+  spell_ok spell (flat_map il_labels (instrs its) ++ map fst (equs its)) ->
+  renders_doc2 spell org its es -> shape2_ok es -> Forall (fun xk => (1 <= snd xk)%nat) es ->
+  ranked spell (equs its) rkN ->
+  bodies_known cfg its ->
+  meaning (mconf_of cfg) (mkProg its org None nm au []) = MOk code start ->
+  Forall words_ok bs -> counts_ref spell cfg its [] bs -> (length bs <= max_for_passes)%nat ->
+  lex_ascii inp = Some toks -> counts_modelled toks None = true ->
+  toks = repeat nl_tok lead ++ blocks_rest bs last ++ [tEOF] ->
+  compile_warrior cfg inp = COk code start (dmeta (mkPM [] [] []) es).
+Proof.
+  intros es Hv Hsp Hrd Hsh Hk1 Hrk Hbod Hmean Hw Hc Hlen Hlex Hcm Htoks.
+  apply (blocks_program spell Hne cfg org its bs last lead nm au code start inp toks rkN); try assumption.
+  apply (counts_from_reference spell cfg lead org its es last Hsp Hrd Hsh Hk1 rkN Hrk bs [] eq_refl Hc).
 Qed.
